@@ -249,7 +249,7 @@ impl Monitor for C13 {
 pub fn profile() -> Profile {
     let mut p = Profile::general();
     p.net_w = [50, 15, 20, 15, 0, 0, 0, 0, 0];
-    p.kind_w = [44, 14, 6, 0, 0, 30, 2, 0, 0];
+    p.kind_w = [40, 22, 4, 0, 0, 32, 2, 0, 0];
     p.p_mut = 8;
     p.max_txs = 4;
     p.max_steps = 26;
@@ -262,7 +262,7 @@ pub fn profile() -> Profile {
 pub fn arb_stake_plan(p: &Profile) -> impl proptest::strategy::Strategy<Value = crate::plan::Plan> {
     use proptest::prelude::*;
     // more epoch jumps than the default step mix
-    (crate::plan::arb_plan(p), proptest::collection::vec((any::<u16>(), 0u8..7), 2..6)).prop_map(|(mut plan, jumps)| {
+    (crate::plan::arb_plan(p), proptest::collection::vec((any::<u16>(), 0u8..7), 3..8)).prop_map(|(mut plan, jumps)| {
         for (pos, c) in jumps {
             let i = crate::util::sel(pos, plan.steps.len() + 1);
             plan.steps.insert(i, crate::plan::Step::Seal(None));
